@@ -22,7 +22,7 @@ if os.path.exists(os.path.join(vlib.LEAN_DIR, "Yarel", "Props", "C17.lean")):
                          "uncaught_outcome_is_error_with_trace"]
 # the state the models abstract is all the state there is: the fields of the run-time structures, regenerated on every run, are the ones
 # the models were written against (Props/StateInventory)
-THEOREM_MODULES.append("Yarel.Props.StateInventory")
+THEOREM_MODULES.append("Yarel.Props.StateInventory.state_of_compiler")
 REQUIRED_THEOREMS += ['state_of_compiler']
 USES_GEN = True
 LEVEL = "proof"
